@@ -2,7 +2,7 @@
 // sent to; an extension of property C04) to the real code.
 //
 // TLC emits one CASE per Casketfile (kind cfg: <= 3 proxy rules with from / except / without / upstream
-// tokens, and whether the setup must refuse it) and one per answered request (kind req: the request line
+// tokens, and whether the setup must refuse it) and one per answered request (no kind: the request line
 // the client sends, which rule - or none - answers, which host of its pool, and the exact path and query
 // the backend must read). Binding:
 //
@@ -83,11 +83,8 @@ type caseJ struct {
 	T    string `json:"t,omitempty"`
 	Q    string `json:"q,omitempty"`
 	FQ   bool   `json:"fq,omitempty"`
-	Rule int    `json:"rule,omitempty"`
-	Host int    `json:"host,omitempty"`
-	HK   string `json:"hk,omitempty"`
-	Sch  string `json:"sch,omitempty"`
-	Auth string `json:"auth,omitempty"`
+	Rule int    `json:"r,omitempty"`
+	Host int    `json:"h,omitempty"`
 	W    string `json:"w,omitempty"`
 	WQ   string `json:"wq,omitempty"`
 	WFQ  bool   `json:"wfq,omitempty"`
@@ -755,7 +752,7 @@ func loadCases(t *testing.T) []*cfgG {
 				byID[cj.ID] = c
 				order = append(order, c)
 			}
-		case "req":
+		case "": // a request line
 			reqs = append(reqs, cj)
 		}
 		return nil
@@ -773,9 +770,13 @@ func loadCases(t *testing.T) []*cfgG {
 			groups[gk] = g
 			c.Reqs = append(c.Reqs, g)
 		}
-		w := want{Rule: r.Rule, Host: r.Host, Kind: r.HK, Scheme: r.Sch, Auth: r.Auth, Path: r.W, Query: r.WQ, FQ: r.WFQ, Esc: r.Esc, Al: r.Al}
+		w := want{Rule: r.Rule, Host: r.Host, Path: r.W, Query: r.WQ, FQ: r.WFQ, Esc: r.Esc, Al: r.Al}
 		if r.Rule != 0 {
-			w.Port = c.Pools[r.Rule-1][r.Host-1].Port
+			if r.Rule > len(c.Pools) || r.Host < 1 || r.Host > len(c.Pools[r.Rule-1]) {
+				t.Fatalf("request case names host %d of rule %d, which %q does not have", r.Host, r.Rule, r.ID)
+			}
+			h := c.Pools[r.Rule-1][r.Host-1]
+			w.Kind, w.Scheme, w.Auth, w.Port = h.Kind, h.Scheme, h.Auth, h.Port
 		}
 		g.Wants = append(g.Wants, w)
 	}
